@@ -120,13 +120,17 @@ def run_items(items, job):
             continue
         od = app.scan_text(doc)
         R.count("scans")
-        if not (od.watchdog or od.plugin_error or od.tokenization_error):
+        if od.err and "Error" in od.errtext and not (od.watchdog or od.plugin_error or od.tokenization_error):
+            R.skip("default-scan-ends-in-an-error-the-all-rules-scan-did-not-show")
+        elif not (od.watchdog or od.plugin_error or od.tokenization_error):
             fd = collections.Counter(od.fail_tuples())
             exp = collections.Counter({k: n for k, n in f_all.items() if k[2].lower() in dflt})
             if fd != exp:
                 rules = sorted({k[2] for k in (fd - exp)} | {k[2] for k in (exp - fd)})
                 v.add("default-vs-all:" + ",".join(rules))
                 detail["diff"].append(["default", sorted((fd - exp).elements())[:5], sorted((exp - fd).elements())[:5]])
+                detail["default_scan_stderr"] = od.errtext[:400]
+                detail["default_scan_rc"] = od.rc
             idx = PL.item_index(it, key)
             for j in (idx * 5 % len(dflt), (idx * 11 + 3) % len(dflt)):
                 r = dflt[j]
